@@ -1,7 +1,7 @@
 SPECIFICATION Spec
 CONSTANTS Family = "forms"
           NConcrete = 2
-          Symbols = {"*", ">"}
+          Symbols = {"*"}
           MaxPairs = 1
 INVARIANT Canonical
 INVARIANT DictFirstIsNatural
